@@ -19,7 +19,7 @@ RULE = (
     "attached before that), never an on_error, and that a refused re-activation left instrument_count, the installed "
     "code, HandlerCollection.current and every output unchanged.  non-trivial = history with an activation, >= 1 call "
     "inside and >= 1 call outside the active period, and a stage attached part-way; distinct = distinct op sequences.  "
-    "Plus three child interpreters (global_probe / probing().activate() / with-block then global probe) run to their exit: "
+    "Plus four child interpreters (global_probe / probing().activate() / with-block then global probe / a global probe next to six whose completion fails) run to their exit: "
     "every reduction prints exactly one result, for the probes still active after the end of the main program."
 )
 ASSUMPTIONS = [
@@ -390,8 +390,16 @@ def f(x):
     b = a * 2
     return b
 
+def g(x):
+    c = x
+    return c
+
 how = sys.argv[1]
-p = global_probe("f > b") if how == "global_probe" else probing("f > b")
+if how == "failing-siblings":
+    # several global probes whose completion fails (min over an empty stream) next to one that works
+    for _ in range(6):
+        global_probe("g > c")["c"].min().subscribe(lambda v: print("RESULT min", v))
+p = global_probe("f > b") if how in ("global_probe", "failing-siblings") else probing("f > b")
 p["b"].max().subscribe(lambda v: print("RESULT max", v))
 p["b"].count().subscribe(lambda v: print("RESULT count", v))
 p["b"].subscribe(lambda v: print("EVENT", v))
@@ -423,6 +431,7 @@ def check_interpreter_exit(spec, res):
         "global_probe": ["EVENT 4", "EVENT 10", "EVENT 6", "END-OF-MAIN", "RESULT count 3", "RESULT max 10"],
         "activate": ["EVENT 4", "EVENT 10", "EVENT 6", "END-OF-MAIN", "RESULT count 3", "RESULT max 10"],
         "with-then-global": ["EVENT 4", "RESULT count 1", "RESULT max 4", "END-OF-MAIN", "RESULT sum 10"],
+        "failing-siblings": ["EVENT 4", "EVENT 10", "EVENT 6", "END-OF-MAIN", "RESULT count 3", "RESULT max 10"],
     }
     for how, exp in expect.items():
         res.evaluations += 1
